@@ -53,7 +53,7 @@ VARIANTS = {
         cflags="-O1 -g1 -fno-omit-frame-pointer -fsanitize=thread " + SEAM_DEFS,
         cmake=["-DOPUS_FORTIFY_SOURCE=OFF", "-DOPUS_STACK_PROTECTOR=OFF"],
         simflags="-O1 -g1 -fno-omit-frame-pointer -DOPSIM_MEMTRACE",
-        ldflags=WRAP + " -Wl,--wrap=memcpy -Wl,--wrap=memmove -Wl,--wrap=memset -lpthread"),
+        ldflags=WRAP + " -Wl,--wrap=memcpy -Wl,--wrap=memmove -Wl,--wrap=memset -Wl,--wrap=pthread_mutex_lock -Wl,--wrap=pthread_mutex_unlock -Wl,--wrap=pthread_once -lpthread"),
 }
 
 REPO_DIRS = ["src", "celt", "silk", "include", "dnn", "cmake"]
